@@ -5,6 +5,8 @@
 mod wire;
 #[path = "../wiregen.rs"]
 mod wiregen;
+#[path = "../wirebound.rs"]
+mod wirebound;
 
 use bytes::BytesMut;
 use rustybgp_packet::{bfd, rpki};
@@ -209,6 +211,10 @@ fn main() {
         Some("gen") if a.len() == 5 => {
             let seed: u64 = a[2].parse().expect("seed");
             let n: usize = a[3].parse().expect("n");
+            // the systematic boundary stream first (deterministic), then the random stream
+            for l in wirebound::boundary_cases() {
+                println!("{}", l);
+            }
             for l in wiregen::gen_c03(seed, n, &a[4]) {
                 println!("{}", l);
             }
